@@ -59,6 +59,14 @@ def fixed_scenarios():
     S.append(("double-start-2", {"emit": {0: [1, 2], 1: [3, 4]},
                                  "threads": [[("schedule", 0, 0, "n"), ("schedule", 1, 1, "n"), ("start",), ("start",)], [("stop",), ("join",)]]}))
     S.append(("cb-start", {"emit": {0: [1, 2]}, "callbacks": {0: [[("start",)]]}, "threads": [SETUP + [("stop",), ("join",)]]}))
+    # a handler registered from inside a callback receives every entry whose dispatch begins afterwards - also those that
+    # were already queued when it was added
+    S.append(("cb-add-handler", {"emit": {0: [1, 2, 3]}, "callbacks": {0: [[("add", 1, 0)]]},
+                                 "threads": [[("schedule", 0, 0, "n"), ("start",), ("join",)]]}))
+    S.append(("cb-schedule-equal", {"emit": {0: [1, 2, 3]}, "callbacks": {0: [[("schedule", 1, 0, "n")]]},
+                                    "threads": [[("schedule", 0, 0, "n"), ("start",), ("join",)]]}))
+    S.append(("cb-add-handler-2", {"emit": {0: [1, 2], 1: [3, 4]}, "callbacks": {0: [[("add", 1, 1)]]},
+                                   "threads": [[("schedule", 0, 0, "n"), ("schedule", 0, 1, "n"), ("start",)], [("join",)]]}))
     S.append(("cb-unschedule", {"emit": {0: [1, 2]}, "callbacks": {0: [[("unschedule", 0)]]},
                                 "threads": [SETUP + [("stop",), ("join",)]]}))
     S.append(("cb-remove-other", {"emit": {0: [1, 2]}, "callbacks": {0: [[("remove", 1, 0)]]},
@@ -227,6 +235,69 @@ def judge_c04_gap(scn, result):
     return None
 
 
+def judge_c04_complete(scn, result):
+    """completeness for a handler registered before an event's dispatch began: if `add`/`schedule` of (h, w) returned at
+    position p and every callback for the entry (w, v) happens after p - so its handler copy was taken after the call took
+    effect: the dispatcher holds the observer's lock from the copy to the last callback - then h receives (w, v) too,
+    unless something that removes it began in between or inside that dispatch"""
+    hist = parse_hist(result["hist"])
+    threads = scn["threads"]
+    cbs = scn.get("callbacks", {})
+
+    def op_of(label, idx):
+        if label.startswith("cb"):
+            h, k = label[2:].split(".")
+            return cbs[int(h)][int(k)][idx]
+        return threads[int(label)][idx]
+
+    begs = [(pos, str(label), int(idx), op_of(label, idx)) for pos, label, idx in result.get("begs", [])]
+    beg_of = {(str(label), int(idx)): pos for pos, label, idx in result.get("begs", [])}
+    ret_of = {(f[1], int(f[2])): i for i, f in enumerate(hist) if f[0] == "ret"}
+    enq = {}
+    calls = {}        # (w, v) -> [(pos, h)]
+    for i, f in enumerate(hist):
+        if f[0] == "enq" and f[1] != "STOP":
+            enq.setdefault(int(f[1]), []).append(f[2])
+        elif f[0] == "call":
+            calls.setdefault((int(f[2]), f[3]), []).append((i, int(f[1])))
+
+    def removes(op, h, w):
+        return (op[0] == "remove" and op[1] == h and op[2] == w) or (op[0] == "unschedule" and op[1] == w) or \
+            op[0] in ("uall", "stop")
+
+    for p, f in enumerate(hist):
+        if f[0] != "ret" or f[3] != "ok":
+            continue
+        op = op_of(f[1], int(f[2]))
+        if op[0] not in ("add", "schedule"):
+            continue
+        h, w = op[1], op[2]
+        for (w2, v), cl in calls.items():
+            if w2 != w or enq.get(w, []).count(v) != 1:
+                continue
+            first, last = min(c[0] for c in cl), max(c[0] for c in cl)
+            if first <= p or any(hh == h for _c, hh in cl):
+                continue
+            # the dispatch of (w, v) is over: a callback for another entry follows, or a client call that began during it returned
+            nxt = [i for i, g in enumerate(hist) if i > last and g[0] == "call" and (int(g[2]), g[3]) != (w, v)]
+            done = [i for i, g in enumerate(hist) if i > last and g[0] == "ret" and not g[1].startswith("cb")
+                    and beg_of.get((g[1], int(g[2])), -1) > first]
+            if not nxt and not done:
+                continue
+            end = min(nxt + done)
+            if any(g[0] == "died" for g in hist[first:end + 1]):
+                continue          # a callback raised: the dispatching thread ended inside this dispatch
+            # a removing call that had not returned by p and began before the dispatch may take effect in between; one
+            # made from a callback inside the dispatch takes effect at once
+            if any(removes(o_, h, w) and ((pos < first and ret_of.get((label, idx_), len(hist)) > p) or
+                                          (label.startswith("cb") and first <= pos <= end))
+                   for pos, label, idx_, o_ in begs):
+                continue
+            return (f"handler {h} was registered for watch {w} (the call returned at history position {p}) before the dispatch "
+                    f"of the entry ({w}, {v}) began (first callback at {first}), nothing removed it, and it never received it")
+    return None
+
+
 def judge_c05(scn, result):
     """after a removing call has returned, the removed handler is not called for that watch any more
     (unless a registering call for it returns later: it may already have taken effect)"""
@@ -370,7 +441,7 @@ def run(res, tier, lean, prop="C04", proof_breaks=(), build_log=""):
             raise RuntimeError("the compiled model contradicts a proved theorem of WD.Props.C06 (driver/compiler problem?): " + o[-300:])
     res.notes["runs_replayed"] = len(outs_full)
     bad, judged = [], []
-    judges = {"C04": [judge_c04, judge_c05, judge_c04_gap], "C05": [judge_c05], "C06": [judge_c06], "C07": [judge_c07], "C13": [judge_c13]}[prop]
+    judges = {"C04": [judge_c04, judge_c05, judge_c04_gap, judge_c04_complete], "C05": [judge_c05], "C06": [judge_c06], "C07": [judge_c07], "C13": [judge_c13]}[prop]
     for line, o, i, (name, scn, result) in zip(lines, outs, impl, meta):
         res.count()
         if any(h.startswith("call:") for h in result["hist"]):
